@@ -72,7 +72,7 @@ LANG = {'sim': {'L1': 'de_DE', 'L2': 'it_IT'}, 'real': {'L1': 'C', 'L2': 'de_DE'
 PLAIN_NAME = {'sim': {'L1': 'de_DE.UTF-8', 'L2': 'it_IT.UTF-8'}, 'real': {'L1': 'C.utf8', 'L2': 'de_DE.UTF-8'}}
 # CollTable of spec/CollationLock.tla (loc, fb): used only to render expected hook values
 LOC = {'cp': None, 'L1': 'L1', 'L2': 'L2', 'U1': 'L1', 'U2': 'L2', 'UFB': 'FB'}
-DEVIATIONS = ('LeakRaise', 'YieldHolding', 'LeaveHolding', 'ReenterHolding')
+DEVIATIONS = ('LeakRaise', 'YieldHolding', 'LeaveHolding', 'ReenterHolding', 'EnterWithoutLock')
 SILENT = ('CallArg', 'EvalArgs', 'LeaveHolding', 'ResumeLazy', 'Enter0', 'Recurse', 'ReenterHolding')
 
 
@@ -311,8 +311,17 @@ class World:
             return True
         if self._gated(tid):
             uri = _peek_collation()
-            self._post(tid, ('acquire', coll_class(uri, self.mode), lk.owner == tid and lk._l.locked(), uri))
-            self._grant(tid)
+            timed = (not blocking) or (timeout is not None and timeout >= 0)
+            while True:
+                self._post(tid, ('acquire', coll_class(uri, self.mode), lk.owner == tid and lk._l.locked(), uri, timed))
+                g_ = self._grant(tid)
+                if g_ != 'timeout':
+                    break
+                if timed:     # VIRTUAL clock: the holder kept the lock longer than any time-out
+                    self.emit(tid, 'acquire_timeout')
+                    self.gate.acks.put((tid, None))
+                    return False
+                self.gate.acks.put((tid, None))      # a blocking acquire simply goes on waiting
             if not lk._l.acquire(False):
                 self.gate.acks.put((tid, 'lock_busy'))
                 self._grant(tid)      # only an abort can follow
@@ -324,7 +333,13 @@ class World:
             self.emit(tid, 'self_wait')
             self.aborted.add(tid)
             raise SelfDeadlock()
-        if not blocking:
+        if (not blocking) or (timeout is not None and timeout >= 0):
+            # VIRTUAL clock: a busy lock stays busy longer than any time-out
+            ok = lk._l.acquire(False)
+            if not ok:
+                self.emit(tid, 'acquire_timeout')
+                return False
+        elif not blocking:
             ok = lk._l.acquire(False)
         else:
             ok = lk._l.acquire(True, self.acquire_timeout if timeout is None or timeout < 0 else
@@ -473,6 +488,8 @@ def expected_posts(S, act, args) -> list[tuple]:
     idx, f = acting_frame(S, act, args)
     if act in ('Call', 'Resume') or act in SILENT:
         return []
+    if act in ('LongHold', 'EnterWithoutLock'):
+        return [('probe_timeout', act)]
     frs = S['frames'][args[0] - 1]
     child = is_child(frs, idx)
     leave = [('set', f['saved'], 'ok'), ('release',)] if f['hold'] else []
@@ -620,6 +637,8 @@ def build_plan(states, path, mode: str, variety: int) -> dict:
             st['cmd'] += [fi['k'], fi['expr'], fi['vars']]
         if st['act'] == 'Acquire':
             st['posts'][0].append(finfo[st['fid']].get('uri'))
+        if st['act'] == 'LongHold' and 'ArgError' in finfo[st['fid']]['acts']:
+            st['posts'] = []        # this call ends with an operand error before it ever asks for the lock
     # what the threads are doing when the behaviour ends
     Dn = states[path[-1][1]]
     waits = {}
@@ -722,6 +741,42 @@ def execute_plan(plan: dict, timeout: float = 10.0) -> dict:
             done_posts = []
             for exp in st['posts']:
                 exp = tuple(exp)
+                if exp[0] == 'probe_timeout':
+                    # time passes while another thread holds the lock: whatever time-out the pending acquire()
+                    # of thread t has, it elapses now (virtual clock) - and t must still not be inside
+                    try:
+                        got = gate.posts[t].get(timeout=timeout)
+                    except queue.Empty:
+                        got = ('hung',)
+                    if got[0] != 'acquire':
+                        result = {'kind': 'diverge', 'step': si, 't': t, 'expected': ['acquire(pending)'],
+                                  'observed': list(got), 'matched': done_posts, 'what': 'event'}
+                        break
+                    if not got[4]:                      # a plain blocking acquire: it waits, however long
+                        gate.posts[t].put(got)
+                        if exp[1] == 'EnterWithoutLock':
+                            result = {'kind': 'diverge', 'step': si, 't': t, 'expected': ['acquire(timed)'],
+                                      'observed': ['acquire_blocks'], 'matched': done_posts, 'what': 'event'}
+                            break
+                        continue
+                    gate.grants[t].put('timeout')
+                    try:
+                        gate.acks.get(timeout=timeout)
+                    except queue.Empty:
+                        pass
+                    if exp[1] == 'LongHold':
+                        try:
+                            nxt_ = gate.posts[t].get(timeout=timeout)
+                        except queue.Empty:
+                            nxt_ = ('hung',)
+                        if nxt_[0] == 'acquire':
+                            gate.posts[t].put(nxt_)        # it asks again: still outside, as the model says
+                        else:
+                            result = {'kind': 'diverge', 'step': si, 't': t,
+                                      'expected': ['still waiting for the lock (acquire timed out)'],
+                                      'observed': list(nxt_), 'matched': done_posts, 'what': 'mutex'}
+                            break
+                    continue
                 try:
                     got = gate.posts[t].get(timeout=timeout)
                 except queue.Empty:
@@ -846,7 +901,9 @@ class G:
 
 def cover_paths(g: G, keep, rnd: random.Random, limit: int | None = None) -> tuple[list[list[int]], int]:
     """Behaviours (lists of edge indexes, init -> terminal) that together contain every kept edge."""
-    out = {s: [ei for ei in eis if keep(g.edges[ei])] for s, eis in g.out.items()}
+    out = {s: [ei for ei in eis if keep(g.edges[ei]) and g.edges[ei][0] != g.edges[ei][1]] for s, eis in g.out.items()}
+    # stuttering actions (LongHold: time passes, nothing may change) are visited where a behaviour passes by
+    loops = {s: [ei for ei in eis if keep(g.edges[ei]) and g.edges[ei][0] == g.edges[ei][1]] for s, eis in g.out.items()}
     # BFS tree from the initial states
     pred: dict[int, int | None] = {s: None for s in g.init}
     order = list(g.init)
@@ -877,9 +934,20 @@ def cover_paths(g: G, keep, rnd: random.Random, limit: int | None = None) -> tup
                 dq.append(s)
     if len(done) != len(order):
         raise tla.MachineryError('CollationLock graph: a state cannot reach a terminal state')
-    uncovered = {ei for s in order for ei in out[s]}
+    uncovered = {ei for s in order for ei in out[s]} | {ei for s in order for ei in loops[s]}
     total = len(uncovered)
     paths = []
+
+    def with_loops(path):
+        res = []
+        for ei in path:
+            res.append(ei)
+            for li in loops[g.edges[ei][1]]:
+                if li in uncovered:
+                    uncovered.discard(li)
+                    res.append(li)
+        return res
+
     for s in order:
         for e0 in out[s]:
             if e0 not in uncovered:
@@ -901,7 +969,7 @@ def cover_paths(g: G, keep, rnd: random.Random, limit: int | None = None) -> tup
                 x = g.edges[ei][1]
             for ei in pre:
                 uncovered.discard(ei)
-            paths.append(path)
+            paths.append(with_loops(path))
             if limit and len(paths) >= limit:
                 return paths, total - len(uncovered)
     return paths, total - len(uncovered)
@@ -914,6 +982,17 @@ _GRAPHS: dict[str, G] = {}
 
 def classify(g: G, other: G | None, path_edges, res: dict) -> str:
     """Name the action of the OTHER variant that explains a divergence, else 'unmodelled'."""
+    if other is not None and res['what'] == 'mutex':
+        # the thread went on after its acquire() timed out: the pinned variant with TimedAcquire has a name for it
+        t = res['t']
+        st = g.states[g.edges[path_edges[res['step']]][0]]
+        sid = other.index.get(st)
+        if sid is None:
+            sid = other.proj(t).get(G.key(st, t))
+        if sid is not None and any(other.edges[ei][2] == 'EnterWithoutLock' and other.edges[ei][3][0] == t
+                                   for ei in other.out[sid]):
+            return 'EnterWithoutLock'
+        return 'unmodelled'
     if other is None or res['what'] not in ('event', 'final'):
         return 'unmodelled'
     t = res['t']
@@ -1036,6 +1115,8 @@ def replay_job(job):
     else:
         cls = classify(g, other, pe, res)
         st = plan['steps'][res['step']] if res['step'] < len(plan['steps']) else {'act': 'end', 'args': []}
+        if variant == 'pinned' and res['observed'] == ['acquire_blocks']:
+            cls = 'LongHold'
         if variant == 'pinned' and cls != 'unmodelled':
             rec['verdict'] = 'pass'
             rec['note'] = 'pinned_model_outdated'       # the code does what the property variant does here
@@ -1121,6 +1202,7 @@ def snapshot_globals(world: World | None) -> dict:
         'dec': (ctx.prec, ctx.rounding, ctx.Emin, ctx.Emax, ctx.capitals, ctx.clamp,
                 tuple(sorted(str(k.__name__) for k, v in ctx.traps.items() if v))),
         'env': dict(os.environ),
+        'rnd': hash(random.getstate()),        # the process-wide generator of the `random` module
     }
 
 
@@ -1134,6 +1216,8 @@ def diff_globals(a: dict, b: dict) -> list[str]:
         out.append('decimal_context')
     if a['env'] != b['env']:
         out.append('environ')
+    if a.get('rnd') != b.get('rnd'):
+        out.append('random_state')
     return out
 
 
@@ -1573,7 +1657,7 @@ def _validate_part(args):
     os.makedirs(wd, exist_ok=True)
     consts = dict(Threads=set(range(1, threads + 1)), Configs=frozenset([frozenset()]), InitLocales={'C'},
                   Colls={'L1', 'L2', 'U1', 'U2', 'UFB'}, Kinds={'plain', 'gen', 'lazy', 'rec'}, MaxCalls=0, MaxDepth=4,
-                  MaxItems=0, Variant='union', Transient=True)
+                  MaxItems=0, Variant='union', Transient=True, TimedAcquire=False)
     cfg = tla.cfg_text(consts, spec='TraceSpec', invariants=['TraceInv'], postcondition='MaxPos')
     # trace ids are renumbered 1..K inside the file (they index TLC registers)
     ids: dict[int, int] = {}
@@ -1663,7 +1747,17 @@ def prolog(kind: str, size: int) -> str:
     return ws(size)
 
 
-def entity_text(ek: str, pre: str, size: int, ref: str) -> str:
+XML_DECLS = {
+    'none': '', 'version': '<?xml version="1.0"?>',
+    'standalone-yes': '<?xml version="1.0" encoding="UTF-8" standalone="yes"?>',
+    'standalone-no': '<?xml version="1.0" encoding="UTF-8" standalone="no"?>',
+    'bogus': '<?xml version="1.0" encoding="x-no-such-encoding"?>',
+}
+for _e in ('UTF-8', 'utf-8', 'ISO-8859-1', 'US-ASCII', 'UTF-16', 'UTF-16LE', 'UTF-16BE', 'UCS-4'):
+    XML_DECLS[_e] = f'<?xml version="1.0" encoding="{_e}"?>'
+
+
+def entity_text(ek: str, pre: str, size: int, ref: str, xmldecl: str = 'none') -> str:
     decl, name = ENT_DECL[ek]
     if name is None:
         body = '<r>t</r>'
@@ -1671,7 +1765,7 @@ def entity_text(ek: str, pre: str, size: int, ref: str) -> str:
         body = f'<r a="&{name};">t</r>'
     else:
         body = f'<r>&{name};</r>'
-    return prolog(pre, size) + decl + body
+    return XML_DECLS[xmldecl] + prolog(pre, size) + decl + body
 
 
 DEC_OPS = {
@@ -1684,7 +1778,47 @@ DEC_OPS = {
     'format_big': "format-number(12345678901234567890123456789.75, '#,##0.0')",
     'format_big_double': "format-number(1e30, '#')",
     'format_big_neg': "format-number(-98765432109876543210987654321.5, '0.00')",
+    # not decimal, but the same kind of vector: the process-wide state of the `random` module
+    'random': "random-number-generator(42)?number", 'random-permute': "random-number-generator(7)?permute(1 to 5)",
+    'random-next': "random-number-generator()?next()?number",
 }
+
+
+MAGS = {
+    'ordinary': '2', '1e27': '1e27', '1e30': '1e30', '-1e30': '-1e30', '1e300': '1e300',
+    'huge_int': '1' + '0' * 40, 'huge_dec': '1' + '0' * 30 + '.5', 'NaN': "xs:double('NaN')",
+    'INF': "xs:double('INF')", '-INF': "xs:double('-INF')",
+}
+SEQ = '(1 to 4)'
+SEQ_FNS = {
+    'subsequence2': 'subsequence({S}, {M})', 'subsequence3': 'subsequence({S}, 1, {M})',
+    'subsequence-neg': 'subsequence({S}, -({M}), 2 * ({M}))', 'remove': 'remove({S}, {M})',
+    'insert-before': "insert-before({S}, {M}, 'x')", 'index-of': 'index-of(({S}, {M}), {M})',
+    'distinct-values': 'distinct-values(({S}, {M}, {M}))', 'reverse': 'reverse(({S}, {M}))',
+    'tail': 'tail(({M}, {S}))', 'for': 'for $x in {S} return $x + {M}',
+    'some': '(some $x in {S} satisfies $x + {M} > 0)', 'every': '(every $x in {S} satisfies $x + {M} > 0)',
+    'filter': 'filter({S}, function($x){$x < {M}})', 'for-each': 'for-each({S}, function($x){$x * {M}})',
+    'for-each-pair': 'for-each-pair({S}, {S}, function($a,$b){$a + $b + {M}})', 'simple-map': '{S} ! (. + {M})',
+    'predicate': '{S}[. < {M}]', 'position-pred': '{S}[position() < {M}]',
+    'round': 'for $x in {S} return round($x * {M})', 'decimal-div': 'for $x in {S} return xs:decimal($x) div 3 + {M}',
+}
+CONSUMES = {
+    'full': '{E}', 'first': '({E})[1]', 'head': 'head({E})', 'exists': 'exists({E})',
+    'some': 'some $v in ({E}) satisfies true()', 'exactly-one': 'exactly-one({E})', 'zero-or-one': 'zero-or-one({E})',
+    'lockstep-fep': 'for-each-pair({E}, {E}, function($a,$b){$a})', 'lockstep-deq': 'deep-equal({E}, {E})',
+    'lockstep-eq': '({E}) = ({E})', 'iter1': '{E}',      # iter1: iter_select(), one item, dropped by the caller
+}
+
+
+def seq_expr(fn: str, consume: str, mag: str) -> str:
+    e = SEQ_FNS[fn].replace('{S}', SEQ).replace('{M}', MAGS[mag])
+    return CONSUMES[consume].replace('{E}', e)
+
+
+def dec_state() -> tuple:
+    ctx = decimal.getcontext()
+    return (ctx.prec, ctx.rounding, ctx.Emin, ctx.Emax, ctx.capitals, ctx.clamp,
+            tuple(sorted(str(k.__name__) for k, v in ctx.traps.items() if v)))
 
 
 def project_globals(act, raw):
@@ -1744,7 +1878,7 @@ def globals_worker(job):
 
     for sid in order:
         st = states[sid]
-        edges = [e for e in out_edges.get(sid, ()) if e[1] in ('ParseXml', 'Decimal', 'DefaultCollation')]
+        edges = [e for e in out_edges.get(sid, ()) if e[1] in ('ParseXml', 'Decimal', 'DefaultCollation', 'SeqEval')]
         if not edges:
             continue
         want = {NAME_BIND[a] for a in st['env']}
@@ -1753,34 +1887,47 @@ def globals_worker(job):
             exp = tuple(states[dst]['res'])
             text = None
             if act == 'ParseXml':
-                api, ek, pre, size, ref = args
-                text = entity_text(ek, pre, size, ref)
+                api, ek, pre, size, ref, xmldecl = args
+                text = entity_text(ek, pre, size, ref, xmldecl)
                 expr = f"string-join(({api}($x)//text(), {api}($x)//@*/string()), '|')"
                 kw, var = {}, {'x': text}
             elif act == 'DefaultCollation':
                 expr, kw, var = 'default-collation()', {}, {}
+            elif act == 'SeqEval':
+                expr, kw, var = seq_expr(*args), {}, {}
             else:
                 expr, kw, var = DEC_OPS[args[0]], {}, {}
             stats['transitions'] += 1
-            if (act == 'ParseXml' and args[1] != 'none') or (act == 'DefaultCollation' and st['env']):
+            if (act == 'ParseXml' and args[1] != 'none') or (act == 'DefaultCollation' and st['env']) or \
+                    (act == 'SeqEval' and args[1] != 'full' and args[2] != 'ordinary'):
                 stats['nontrivial'] += 1       # an entity-declaring text / a non-empty environment
             k += 1
             # small vectors: every tree library x parser version; large texts: one combination each, rotating
-            todo = combos if not (act == 'ParseXml' and args[3] > 100) else [combos[k % 4]]
+            todo = combos if not ((act == 'ParseXml' and (args[3] > 100 or args[5] != 'none')) or act == 'SeqEval') \
+                else [combos[k % 4]]
             for lib, ver in todo:
                 rt, pc = roots[lib], parsers[ver]
                 before = snapshot_globals(None)
+                at_raise = None
                 try:
-                    if act == 'ParseXml' and args[0] == 'defuse_xml':
+                    if act == 'SeqEval' and args[1] == 'iter1':
+                        it = elementpath.Selector(expr, parser=pc).iter_select(rt)
+                        first = next(it, None)
+                        del it               # the caller drops the iterator after one item
+                        raw = ('value', first)
+                    elif act == 'ParseXml' and args[0] == 'defuse_xml':
                         defuse_xml(text if (k + len(lib)) % 2 else text.encode('utf-8'))
                         raw = ('value', 'passed')
                     else:      # Selector.select passes its keyword arguments to the dynamic context
                         raw = ('value', elementpath.Selector(expr, parser=pc).select(rt, variables=dict(var), **kw))
                 except Exception as e:
+                    at_raise = dec_state()      # while the exception (and the frames it keeps) is alive
                     raw = ('raised', type(e).__name__, str(getattr(e, 'code', None)))
                 stats['evaluations'] += 1
                 obs = project_globals(act, raw)
                 mon = diff_globals(before, snapshot_globals(None))
+                if at_raise is not None and at_raise != before['dec']:
+                    mon.append('decimal_context_at_raise')
                 bad = None
                 if exp[0] != 'any' and exp != tuple(obs):
                     bad = 'result'
@@ -1792,7 +1939,9 @@ def globals_worker(job):
                 if bad:
                     feat = {'part': 'globals', 'action': act, 'what': bad, 'observed': str(obs[0]),
                             'arg': args[1] if act == 'ParseXml' else (str(args[-1]) if args else ''),
-                            'fn': args[0] if act == 'ParseXml' else act, 'prefix': args[2] if act == 'ParseXml' else '',
+                            'fn': args[0] if act in ('ParseXml', 'SeqEval') else act,
+                            'prefix': args[2] if act == 'ParseXml' else (args[1] if act == 'SeqEval' else ''),
+                            'decl': args[5] if act == 'ParseXml' else '',
                             'size_class': ('-' if act != 'ParseXml' else 'small' if args[3] <= 100 else
                                            'le16K' if args[3] <= 16384 else 'gt16K')}
                     shown = {kk: (vv if len(str(vv)) < 300 else f'<{len(vv)} characters>') for kk, vv in var.items()}
@@ -2077,10 +2226,11 @@ ALL_CONFIGS = [[], ['L1'], ['L1', 'FB'], ['L1', 'L2', 'FB']]
 ALL_KINDS = {'plain', 'gen', 'lazy', 'rec'}
 
 
-def _consts(threads, colls, kinds, maxcalls, configs, inits=('C',), transient=False, maxitems=1, depth=3, variant='property'):
+def _consts(threads, colls, kinds, maxcalls, configs, inits=('C',), transient=False, maxitems=1, depth=3, variant='property',
+            timed=False):
     return dict(Threads=set(range(1, threads + 1)), Configs=frozenset(frozenset(c) for c in configs),
                 InitLocales=set(inits), Colls=set(colls), Kinds=set(kinds), MaxCalls=maxcalls, MaxDepth=depth,
-                MaxItems=maxitems, Variant=variant, Transient=transient)
+                MaxItems=maxitems, Variant=variant, Transient=transient, TimedAcquire=timed)
 
 
 REPLAY_CONFIGS = {
@@ -2088,6 +2238,9 @@ REPLAY_CONFIGS = {
         ('1thr', dict(threads=1, colls=['cp', 'L1', 'U2', 'UFB'], kinds=ALL_KINDS, maxcalls=2, configs=ALL_CONFIGS,
                       inits=('C', 'L1'), transient=True, maxitems=2)),
         ('2thr', dict(threads=2, colls=['cp', 'L1', 'U2'], kinds=ALL_KINDS, maxcalls=1, configs=ALL_CONFIGS[:3])),
+        # the pinned variant may also enter on an acquire() time-out while the other thread holds the lock
+        ('2thr-timed', dict(threads=2, colls=['L1', 'U2'], kinds={'plain', 'gen'}, maxcalls=1, configs=ALL_CONFIGS[:2],
+                            depth=1, timed=True)),
     ],
     'thorough': [
         ('1thr', dict(threads=1, colls=['cp', 'L1', 'L2', 'U1', 'U2', 'UFB'], kinds=ALL_KINDS, maxcalls=3,
@@ -2096,6 +2249,8 @@ REPLAY_CONFIGS = {
         ('2thr2', dict(threads=2, colls=['L1', 'U2'], kinds={'plain', 'gen'}, maxcalls=2, configs=ALL_CONFIGS[:3],
                        transient=True, depth=2)),
         ('3thr', dict(threads=3, colls=['L1', 'U2'], kinds={'plain', 'gen'}, maxcalls=1, configs=ALL_CONFIGS[:3], depth=1)),
+        ('2thr-timed', dict(threads=2, colls=['L1', 'U2'], kinds={'plain', 'gen'}, maxcalls=2, configs=ALL_CONFIGS[:2],
+                            depth=2, timed=True)),
     ],
 }
 DESIGN_CONFIGS = {
@@ -2116,13 +2271,16 @@ GLOBALS_CONSTS = {
                   Apis={'parse-xml', 'parse-xml-fragment', 'defuse_xml'},
                   EntKinds={'none', 'internal', 'internal_unused', 'external', 'parameter', 'unparsed', 'nested', 'doctype'},
                   Prologs={'ws', 'comment', 'pi', 'decl_comment'}, Sizes={0, 100, 4097, 16385, 65537},
-                  RefPos={'content', 'attr'},
-                  Ops={'div', 'round', 'mul', 'sum', 'big', 'format', 'format_big', 'format_big_double'}),
+                  RefPos={'content', 'attr'}, Decls=set(XML_DECLS), SeqFns=set(SEQ_FNS), Consumes=set(CONSUMES),
+                  Mags=set(MAGS),
+                  Ops={'div', 'round', 'mul', 'sum', 'big', 'format', 'format_big', 'format_big_double', 'random',
+                       'random-permute', 'random-next'}),
     'thorough': dict(Names={'N1', 'N2', 'N3'}, Objects={'token', 'selector', 'parser', 'fnitem'}, MaxHist=3,
                      Apis={'parse-xml', 'parse-xml-fragment', 'defuse_xml'}, EntKinds=set(ENT_DECL),
                      Prologs={'ws', 'comment', 'pi', 'decl_comment'},
                      Sizes={0, 1, 100, 4095, 4096, 4097, 16383, 16384, 16385, 65537, 1048577},
-                     RefPos={'content', 'attr'}, Ops=set(DEC_OPS)),
+                     RefPos={'content', 'attr'}, Decls=set(XML_DECLS), SeqFns=set(SEQ_FNS), Consumes=set(CONSUMES),
+                     Mags=set(MAGS), Ops=set(DEC_OPS)),
 }
 _live_re = re.compile(r'Temporal propert(?:y|ies) .*violated')
 _act_re = re.compile(r'^State \d+: <(\w+(?:\([^)]*\))?)', re.M)
@@ -2222,6 +2380,7 @@ def run(chk: core.Check) -> None:
     for inv in ('NoLockLeak', 'NoSelfWait', 'NoStuck'):
         tasks.append(ex.submit(tlc_lock, f'pinned-{inv}', _consts(**pin), [inv], workers=2))
     tasks.append(ex.submit(tlc_lock, 'pinned-live', _consts(**pin), (), ['EveryCallReturns'], 'FairSpec', False, 2))
+    tasks.append(ex.submit(tlc_lock, 'pinned-mutex', _consts(**dict(pin, timed=True)), ['MutualExclusion'], workers=2))
     rec_kw = dict(threads=1, colls=['cp', 'L1', 'U2'], kinds={'rec'}, maxcalls=2, configs=ALL_CONFIGS[:3])
     tasks.append(ex.submit(tlc_lock, 'pinned-rec', _consts(variant='pinned', **rec_kw), ['NoSelfWait'], workers=2))
     tasks.append(ex.submit(tlc_lock, 'property-rec', _consts(**rec_kw), SAFETY, workers=2))
@@ -2233,7 +2392,8 @@ def run(chk: core.Check) -> None:
         wd = os.path.join(sd, 'globals')
         dot = os.path.join(wd, 'g.dot')
         cfg = tla.cfg_text(GLOBALS_CONSTS[tier], invariants=['TypeOK', 'BlindByDefault', 'HistoryBlind', 'NonInterference',
-                                                               'AllowedIsExact', 'NeverExpanded', 'PositionBlind', 'CollationBlind'], properties=['EvalPreserves'])
+                                                               'AllowedIsExact', 'NeverExpanded', 'PositionBlind', 'DeclarationBlind',
+                                                               'CollationBlind'], properties=['EvalPreserves'])
         return 'globals', tla.run_tlc('Globals', cfg, wd, workers=2, dump_dot=dot), dot
     tasks.append(ex.submit(tlc_globals))
     f_mon = ex.submit(monitor_paths, chk)
@@ -2279,6 +2439,11 @@ def run(chk: core.Check) -> None:
                                      f'is wrong\n' + '\n'.join(r.output.splitlines()[-20:]))
         cex[inv] = _act_re.findall(r.output)
         chk.model(f'CollationLock/pinned-{inv} (violated as expected)', r)
+    r = results['pinned-mutex'][0]
+    cex['MutualExclusion (timed acquire, result ignored)'] = _act_re.findall(r.output)
+    if r.violated != 'MutualExclusion' or not any(a.startswith('EnterWithoutLock') for a in cex['MutualExclusion (timed acquire, result ignored)']):
+        raise tla.MachineryError('the pinned variant with TimedAcquire does not violate MutualExclusion through EnterWithoutLock')
+    chk.model('CollationLock/pinned-mutex (MutualExclusion violated through EnterWithoutLock, as expected)', r)
     r = results['pinned-rec'][0]
     cex['NoSelfWait (re-entrant call site)'] = _act_re.findall(r.output)
     if r.violated != 'NoSelfWait' or not any(a.startswith('ReenterHolding') for a in cex['NoSelfWait (re-entrant call site)']):
@@ -2322,6 +2487,10 @@ def run(chk: core.Check) -> None:
                 need |= {'CallArg', 'ResumeLazy'} | ({'LeaveHolding'} if variant == 'pinned' else {'EvalArgs'})
             if 'rec' in kw['kinds']:
                 need |= {'ReenterHolding'} if variant == 'pinned' else {'Recurse'}
+            if kw['threads'] > 1:
+                need |= {'LongHold'}
+            if kw.get('timed') and variant == 'pinned':
+                need |= {'EnterWithoutLock'}
             missing = need - seen - ({'Resume', 'Abandon', 'Yield', 'Return', 'ExitGen'} if 'gen' not in kw['kinds'] else set()) \
                 - (set() if 'cp' in kw['colls'] else {'Enter0'}) \
                 - (set() if 'cp' in kw['colls'] or variant == 'property' else {'ExitGen', 'Yield', 'Return'})
@@ -2479,12 +2648,12 @@ def run(chk: core.Check) -> None:
             if d not in seen:
                 seen.add(d)
                 dq.append(d)
-    need = {'EnvVar', 'AvailVars', 'ParseXml', 'Decimal', 'DefaultCollation', 'SetVar', 'UnsetVar'}
+    need = {'EnvVar', 'AvailVars', 'ParseXml', 'Decimal', 'DefaultCollation', 'SeqEval', 'SetVar', 'UnsetVar'}
     if need - {e[2] for e in g.edges}:
         raise tla.MachineryError(f'Globals: actions never fired: {sorted(need - {e[2] for e in g.edges})}')
     gjobs = []
     for sid in order:
-        edges = [e for e in out[sid] if e[1] in ('ParseXml', 'Decimal', 'DefaultCollation')]
+        edges = [e for e in out[sid] if e[1] in ('ParseXml', 'Decimal', 'DefaultCollation', 'SeqEval')]
         for i in range(0, len(edges), 160):
             gjobs.append(({sid: g.states[sid], **{e[0]: g.states[e[0]] for e in edges[i:i + 160]}}, [sid],
                           {sid: edges[i:i + 160]}, chk.seed + i))
@@ -2650,6 +2819,7 @@ def replay(rec: dict) -> int:
         rt = (ET if case['lib'] == 'etree' else LET).XML('<r><a>x</a></r>')
         if case['action'] == 'ParseXml':
             case['vars'] = {'x': entity_text(*case['args'][1:])}
+        dec0 = dec_state()
         try:
             if case['action'] == 'ParseXml' and case['args'][0] == 'defuse_xml':
                 from elementpath.etree import defuse_xml
@@ -2672,6 +2842,9 @@ def replay(rec: dict) -> int:
             exp = ('names', frozenset())
         print('projected:', obs)
         reproduces = exp[0] != 'any' and tuple(obs) != exp
+        if dec_state() != dec0:
+            print('decimal  :', dec0, '->', dec_state())
+            reproduces = True
     elif kind == 'envgate':
         observed = replay_envgate(case)
         for step, o in zip(case['steps'], observed):
